@@ -10,14 +10,16 @@ From FV Require Import C18.Model C18.Proofs.
 Import ListNotations.
 
 (* "Submitting a task to a running executor returns as soon as its queue has room":
-   an Execute call under way can be blocked at one place only — parked on the queue send while
-   its value lies beyond the capacity; with room it moves; on a running executor every step it
-   takes brings it closer to returning (at most 4 own steps) *)
+   an Execute call under way can be blocked at two places only — parked on the queue send while
+   its value lies beyond the capacity, or at the executor's lock while a Shutdown call is waiting
+   for it (the executor is being shut down); on a running executor with room it moves, and every
+   step it takes brings it closer to returning (at most 4 own steps) *)
 Theorem c18_execute_returns : forall o n c cs t,
   let s := run o (init n c) cs in
   live (subs s t) ->
-  (step o s (Sub t) = None -> subs s t = SParked /\ In t (skipn (cap s) (queue s))) /\
-  (length (queue s) <= cap s -> step o s (Sub t) <> None) /\
+  (step o s (Sub t) = None ->
+   (subs s t = SParked /\ In t (skipn (cap s) (queue s))) \/ (subs s t = SCheck /\ sh s = ShLocking)) /\
+  (sh s = ShIdle -> length (queue s) <= cap s -> step o s (Sub t) <> None) /\
   (forall s', ph s = PRunning -> step o s (Sub t) = Some s' -> rank (subs s' t) < rank (subs s t)).
 Proof.
   intros o n c cs t s L. split; [apply sub_blocked_only_without_room; exact L|].
@@ -28,11 +30,46 @@ Print Assumptions c18_execute_returns.
 (* ... and, undisturbed, a call on a running executor with room returns nil with its task queued *)
 Theorem c18_execute_solo : forall o n c cs,
   let s := run o (init n c) cs in
-  ph s = PRunning -> length (queue s) < cap s ->
+  ph s = PRunning -> sh s = ShIdle -> length (queue s) < cap s ->
   let s' := run o s [Call; Sub (next s); Sub (next s); Sub (next s); Sub (next s)] in
   subs s' (next s) = SRet ROk /\ queue s' = queue s ++ [next s] /\ ran s' = ran s.
 Proof. intros o n c cs s. apply solo_execute. apply (proj1 (reach_Inv o n c cs)). Qed.
 Print Assumptions c18_execute_solo.
+
+(* "every task it accepts is run exactly once": EVERY Execute that returned nil — whenever it did,
+   also one racing with Shutdown — has had its task run exactly once by the time Shutdown is past
+   wg.Wait, in particular when Shutdown has returned *)
+Theorem c18_accepted_run_once : forall o n c cs t,
+  let s := run o (init n c) cs in
+  subs s t = SRet ROk -> joined (sh s) = true -> count_occ Nat.eq_dec (ran s) t = 1.
+Proof. exact accepted_run_once. Qed.
+Print Assumptions c18_accepted_run_once.
+
+(* submitters parked in the send (capacity 0, or a full queue) when Shutdown is called: Shutdown
+   waits at the lock until they have been served — its next step is enabled exactly when no Execute
+   is between its state check and its return — and once the state is changed no Execute is in
+   there, so nothing is sent after the workers have gone and nothing is sent on the closed queue *)
+Theorem c18_shutdown_waits_for_submitters : forall o n c cs,
+  let s := run o (init n c) cs in
+  (sh s = ShLocking ->
+   (step o s Shut <> None <-> forall t, t < next s -> is_reader (subs s t) = false)) /\
+  (sh s <> ShIdle -> sh s <> ShLocking -> forall t, is_reader (subs s t) = false).
+Proof. exact shutdown_waits_for_submitters. Qed.
+Print Assumptions c18_shutdown_waits_for_submitters.
+
+Theorem c18_no_send_on_closed : forall o n c cs,
+  let s := run o (init n c) cs in
+  bounced s = [] /\
+  (forall t, is_reader (subs s t) = true -> closed s = false /\ dn s = false /\ ph s = PRunning).
+Proof. exact no_send_on_closed. Qed.
+Print Assumptions c18_no_send_on_closed.
+
+(* an Execute call panics only through start()'s log.Panicf("invalid executor state") on an
+   executor whose shutdown has begun *)
+Theorem c18_panic_only_after_shutdown : forall o n c cs t,
+  let s := run o (init n c) cs in subs s t = SRet RPanic -> sh s <> ShIdle /\ sh s <> ShLocking.
+Proof. exact panic_only_after_shutdown. Qed.
+Print Assumptions c18_panic_only_after_shutdown.
 
 (* "every task it accepts is run exactly once": an Execute that returned nil before Shutdown began
    (state s1) has had its task run exactly once by the time Shutdown is past wg.Wait — in
@@ -137,7 +174,7 @@ Definition ex_cs1 : list choice :=
   [Call; Call; Sub 0; Sub 1; Sub 0; Sub 1; Sub 0; Sub 1; Sub 0; Sub 0; Sub 0; Sub 0;
    Sub 1; Sub 1; Sub 1; Take 0; Sub 1].
 Definition ex_cs2 : list choice :=
-  [Shut; Shut; SeeDone 1; DrainTake 1; Finish 0; Finish 1; SeeDone 0; DrainEmpty 0; DrainEmpty 1;
+  [Shut; Shut; Shut; SeeDone 1; DrainTake 1; Finish 0; Finish 1; SeeDone 0; DrainEmpty 0; DrainEmpty 1;
    Shut; Shut; Shut].
 Example c18_example :
   let s1 := run ex_oracle (init 2 1) ex_cs1 in
